@@ -440,11 +440,14 @@ class C05(RecheckProp):
     def mc(self, tier):
         return RecheckProp.mc(self, tier) + [
             {"module": "FindRoot.tla", "cfg": "MC_FindRoot.cfg", "workers": 2,
-             "what": "find_root / _holds_content (fixed): payload root found from the root and from the parent, 180 worlds"},
+             "what": "find_root / _holds_content (fixed): payload root found from the root and from the parent, 204 worlds "
+                     "(directories above / below carrying the payload's name, unrelated noise, a loose copy of the first file in the parent)"},
             {"module": "FindRoot.tla", "cfg": "MC_FindRoot_code.cfg", "expect": "fail", "workers": 2,
              "what": "pinned commit: a parent directory named like the payload is taken for the root"},
             {"module": "FindRoot.tla", "cfg": "MC_FindRoot_exists.cfg", "expect": "fail", "workers": 2,
-             "what": "first repair (5badd88): exists() instead of is_file() accepts the parent of x/x/x"}]
+             "what": "first repair (5badd88): exists() instead of is_file() accepts the parent of x/x/x"},
+            {"module": "FindRoot.tla", "cfg": "MC_FindRoot_probefirst.cfg", "expect": "fail", "workers": 2,
+             "what": "seed R16-C05: whatever holds the first described file is the root - wrong when the parent holds a loose copy of it"}]
     rule = ("cases = (version, metafile source, P, shape, sizes from A(P) incl. empty files and exact piece "
             "multiples) x path mode {root, parent}; non-trivial = tree has an empty file or a size that is a "
             "multiple of P or is single-file")
